@@ -16,11 +16,17 @@ ASan+UBSan, NDEBUG and assertions, watchdog, guarded + library traversal).  Inpu
   a sample of all of them wrapped in gzip / bzip2 by the harness.
 Outcome class (objects / error) of both builds must equal model_text `rd`; for XML only inside the
 domain of the model's tokenizer (no DOCTYPE / CDATA / PI / comments / non-UTF-8 declarations: expat
-itself is outside the model).  model_c03 `xmlmon` predicts the builder-protocol violations
-(comment without text, text without comment, user name too long): prediction and the real Reader's
-crash / guarded-walk hit must coincide in both directions.
-layout tie: random builder scripts -> real builders (`lay`) vs `HostileLayout.build` (model_c03 `lay`),
-byte-exact, and the guarded walk verdict vs the model's `decodeAll`.
+itself is outside the model).  model_c03 `xmlmon` replays the discussion-builder protocol monitor
+(Model/HostileXml.lean) on the same documents: since repair 5690f83 it never reports a misuse
+(theorem xml_reader_keeps_builder_protocol) and the real Reader never crashes there; prediction and the
+real Reader's crash / guarded-walk hit must coincide in both directions (a revert of the repair shows
+up here and, with the concrete input, in the regression probes of corpus/C03/xml_findings.ops).
+Regression probes (`<hex> <stable key> <outcome of the repaired reader>`): comment without text -> ok
+with an empty text, second <text> -> xml_error, error inside an open comment -> xml_error, user name
+> 1024 bytes (XML and OPL) -> length_error; another outcome or a crash = REGRESSION of fix <commit>.
+layout tie: random builder scripts -> real builders of BOTH builds (`lay`) vs `HostileLayout.build`
+(model_c03 `lay`), byte-exact, and the guarded walk verdict vs the model's `decodeAll`; scripts may leave
+the LAST comment of a discussion without text (finished by the destructor since 5690f83).
 """
 import os
 import re
@@ -474,7 +480,7 @@ def gen_script(rng, hostile):
                 b.append('c:%d:%d:%s' % (rng.below(2 ** 32), rng.below(2 ** 32), s().hex() or '-'))
                 b.append('x:%s' % (s(40).hex() or '-'))
             if hostile and len(b) > 1 and rng.below(2) == 0:
-                b.pop()      # the LAST comment has no text (a missing text in the middle makes the next add_comment misaligned: UBSan)
+                b.pop()      # the LAST comment has no text: ~ChangesetDiscussionBuilder finishes it (a missing text in the middle is API misuse no reader commits)
             blocks.append(b + ['d'])
     for b in blocks:
         toks += b
@@ -492,33 +498,46 @@ def run_layout_tie(ctx, builds, n):
         with open(corpus) as fh:
             lines = [l.strip() for l in fh if l.strip() and not l.startswith('#')] + lines
     model = run_model_lines(ctx, 'model_c03', lines)
-    hbin = builds[0][2]      # NDEBUG: the assertion build would abort on the hostile scripts (that is F13b)
-    res = hp.run_harness(hbin, lines)
-    ndis = 0
-    first = None
-    for line, m, (out, crash) in zip(lines, model, res):
-        ctx.note_case(line)
-        if crash is not None:
-            ctx.violation('layout-builder-crash:' + hp.crash_signature(crash), 'real builders died on a builder script: %s' % hp.crash_signature(crash),
-                          {'kind': 'counterexample', 'op': line, 'stderr': crash['stderr'][-3000:]})
-            continue
-        mw = m.split(' ')
-        ctx.count('layout-verdict:' + (mw[1] if len(mw) > 1 else m)[:12])
-        # model line: "<hex> ok|oob <guards 0|1>"; harness: "<hex> ok|OOB:<where>"
-        ow = out.split(' ')
-        same_bytes = len(mw) >= 2 and len(ow) >= 2 and mw[0] == ow[0]
-        same_verdict = len(mw) >= 2 and len(ow) >= 2 and (mw[1] == 'ok') == (ow[1] == 'ok')
-        guards_sound = len(mw) < 3 or mw[2] != '1' or (len(ow) >= 2 and ow[1] == 'ok')
-        if not (same_bytes and same_verdict and guards_sound):
-            ndis += 1
-            if first is None:
-                first = (line, out, m)
-    st = ctx.streams.setdefault('layout-build-vs-real-builders', {'lines': 0, 'disagreements': 0})
-    st['lines'] += len(lines)
-    st['disagreements'] += ndis
-    if first is not None:
-        ctx.violation('layout-correspondence', 'HostileLayout.build / Layout.decodeAll and the real builders / guarded walk disagree on %d builder scripts; first: impl `%s` model `%s`'
-                      % (ndis, first[1][:300], first[2][:300]), {'kind': 'broken-correspondence', 'op': first[0], 'impl': first[1][:4000], 'model': first[2][:4000]}, found_input=False)
+    # both builds: the scripts stay inside the builders' asserted call protocol (the last comment of a discussion may
+    # lack its text: finished by the destructor since repair 5690f83; before, the assertion build aborted here)
+    for bname, aflag, hbin in builds:
+        res = hp.run_harness(hbin, lines)
+        ndis = 0
+        first = None
+        for line, m, (out, crash) in zip(lines, model, res):
+            ctx.note_case(bname + ' ' + line)
+            if crash is not None:
+                sig = hp.crash_signature(crash)
+                key = 'xml-comment-without-text' if 'ChangesetDiscussionBuilder' in crash['stderr'] else 'layout-builder-crash:' + sig
+                ctx.violation(key, '%sreal builders (%s) died on a builder script: %s'
+                              % (hp.REGRESSIONS[key] + ' — ' if key in hp.REGRESSIONS else '', bname, sig),
+                              {'kind': 'counterexample', 'op': line, 'build': bname, 'stderr': crash['stderr'][-3000:]})
+                continue
+            mw = m.split(' ')
+            if aflag == '0':
+                ctx.count('layout-verdict:' + (mw[1] if len(mw) > 1 else m)[:16])
+            if m == 'err:length_error' or out == 'err:length_error':
+                # a builder's own length check (set_user since bc6b907, add_tag, add_member, add_comment)
+                if m != out:
+                    ndis += 1
+                    if first is None:
+                        first = (line, out, m)
+                continue
+            # model line: "<hex> ok|oob <guards 0|1>"; harness: "<hex> ok|OOB:<where>"
+            ow = out.split(' ')
+            same_bytes = len(mw) >= 2 and len(ow) >= 2 and mw[0] == ow[0]
+            same_verdict = len(mw) >= 2 and len(ow) >= 2 and (mw[1] == 'ok') == (ow[1] == 'ok')
+            guards_sound = len(mw) < 3 or mw[2] != '1' or (len(ow) >= 2 and ow[1] == 'ok')
+            if not (same_bytes and same_verdict and guards_sound):
+                ndis += 1
+                if first is None:
+                    first = (line, out, m)
+        st = ctx.streams.setdefault('layout-build-vs-real-builders-' + bname, {'lines': 0, 'disagreements': 0})
+        st['lines'] += len(lines)
+        st['disagreements'] += ndis
+        if first is not None:
+            ctx.violation('layout-correspondence:' + bname, 'HostileLayout.build / Layout.decodeAll and the real builders / guarded walk (%s) disagree on %d builder scripts; first: impl `%s` model `%s`'
+                          % (bname, ndis, first[1][:300], first[2][:300]), {'kind': 'broken-correspondence', 'op': first[0], 'impl': first[1][:4000], 'model': first[2][:4000]}, found_input=False)
 
 
 # ======================================================================================================
@@ -556,11 +575,12 @@ def run_part(ctx):
                                 w = l.split(' ', 2)
                                 d = bytes.fromhex(w[0]) if w[0] != '-' else b''
                                 out.append(('corpus:' + fn, d))
-                                if len(w) == 3 and w[2] in ('ok', 'err'):
+                                if len(w) == 3:
                                     pr[d] = (w[1], w[2])
         return out, pr
 
     # ---- XML ----------------------------------------------------------------------------------------
+    hp.tick(ctx, 'xml:generate')
     inputs, probes = corpus('xml')
     labels = {}
     nbase = 7 if quick else 24
@@ -589,15 +609,9 @@ def run_part(ctx):
     def xml_model(datas):
         return text_model_classes(ctx, 'xml', datas, [xml_in_model_domain(labels[d], d) for d in datas])
 
-    def xml_outside(d, mod, cls, out):
-        # Model/XmlFmt.lean does not model the builder's length check of a comment's user name
-        if mod == 'ok' and out == 'err:length_error' and b'<comment' in d:
-            return 'comment-user-length-check'
-        return None
-
-    xin, xouts = hp.hostile_run(ctx, 'xml', 'xml', builds, inputs, xml_model, types=23, probes=probes, comp_sample=40 if quick else 300,
-                                outside_model=xml_outside)
+    xin, xouts = hp.hostile_run(ctx, 'xml', 'xml', builds, inputs, xml_model, types=23, probes=probes, comp_sample=40 if quick else 300)
     # builder-protocol monitor of the model vs what really happened, both builds
+    hp.tick(ctx, 'xml:xmlmon')
     mon = xmlmon(ctx, [d for _, d in xin])
     for bname, aflag, _ in builds:
         xout = xouts[aflag]
@@ -623,6 +637,7 @@ def run_part(ctx):
                           % (bname, nmis, lab, m, o[:200]), {'kind': 'broken-correspondence', 'op': 'rd %s xml none 23 %s' % (aflag, d.hex()[:60000]), 'model': m, 'impl': o[:2000]}, found_input=False)
 
     # ---- OPL ----------------------------------------------------------------------------------------
+    hp.tick(ctx, 'opl:generate')
     inputs, probes = corpus('opl')
     nbase = 5 if quick else 24
     for k in range(nbase):
@@ -646,4 +661,6 @@ def run_part(ctx):
     hp.hostile_run(ctx, 'opl', 'opl', builds, inputs, opl_model, types=23, probes=probes, comp_sample=40 if quick else 300)
 
     # ---- layout tie -----------------------------------------------------------------------------------
+    hp.tick(ctx, 'layout:tie')
     run_layout_tie(ctx, builds, 300 if quick else 6000)
+    hp.tick(ctx, 'text:done')
